@@ -19,9 +19,6 @@ func rateAmountFromBase(c *core.Ctx, rule string) {
 	p := c.P
 	n := 0
 	for _, fd := range p.Funcs(p.Pkg("tax")) {
-		if r := core.RecvNamed(fd.Obj); r == nil || r.Obj().Name() != "Total" {
-			continue
-		}
 		info := fd.Pkg.TypesInfo
 		ld := core.NewLocalDefs(info, fd.Decl.Body)
 		ast.Inspect(fd.Decl.Body, func(m ast.Node) bool {
@@ -33,7 +30,14 @@ func rateAmountFromBase(c *core.Ctx, rule string) {
 			if lf == nil || lf.Name() != "Amount" {
 				return true
 			}
-			call, ok := ast.Unparen(as.Rhs[0]).(*ast.CallExpr)
+			rhs := ast.Unparen(as.Rhs[0])
+			// a local with exactly one definition stands for its definition
+			if v := core.VarOf(info, rhs); v != nil && !v.IsField() {
+				if defs := ld.All(v); len(defs) == 1 && defs[0].RHS != nil && defs[0].N == 1 {
+					rhs = ast.Unparen(defs[0].RHS)
+				}
+			}
+			call, ok := rhs.(*ast.CallExpr)
 			if !ok || len(call.Args) != 1 {
 				return true
 			}
@@ -64,6 +68,6 @@ func rateAmountFromBase(c *core.Ctx, rule string) {
 		})
 	}
 	if n < 2 {
-		c.Ob(rule, "UNRESOLVED:rate-amounts", token.NoPos, false, fmt.Sprintf("only %d rate amount computations found in tax.Total", n))
+		c.Ob(rule, "UNRESOLVED:rate-amounts", token.NoPos, false, fmt.Sprintf("only %d rate amount computations found in package tax", n))
 	}
 }
